@@ -530,8 +530,8 @@ func verifJSProgram(body []byte, version int) {
 		// recorded finding C01-F5: two or more expression statements merged into a `return undefined` / `return void 0`
 		// tail: the undefined is dropped from the comma expression and the function returns the last operand instead
 		hasU := false
-		for i := 0; i+16 <= len(orig); i++ {
-			if string(orig[i:i+16]) == "return undefined" || string(orig[i:i+13]) == "return void 0" {
+		for i := 0; i < len(orig); i++ {
+			if i+16 <= len(orig) && string(orig[i:i+16]) == "return undefined" || i+13 <= len(orig) && string(orig[i:i+13]) == "return void 0" {
 				hasU = true
 			}
 		}
